@@ -34,14 +34,15 @@ class Fold:
         if it != ('p', self.param):
             raise AnalysisError(self.rule, f'{self.func.qname}: loop does not run over parameter '
                                            f'{self.param!r} ({T.show(it, maxlen=120)})')
-        # no other loop in the function
-        others = [l for l in self.ex.loops.values() if l.func is self.func and l.id != self.lid]
+        # no other loop in the function (or in the local functions expanded into it)
+        others = [l for l in self.ex.loops.values() if l.id != self.lid and
+                  (l.func is self.func or l.func.qname.startswith(self.func.qname + '.<locals>.'))]
         if others:
             raise AnalysisError(self.rule, f'{self.func.qname}: more than one loop')
-        self.vars = {}
-        for nm, val in self.summ.env.items():
-            if tag(val) == 'loopres' and val[1] == self.lid:
-                self.vars[nm] = {'init': val[3], 'body': val[4]}
+        # loop-carried variables as recorded by the executor at the end of the loop body (they may live in a local
+        # function / generator expanded at its call site, so the environment of the outer function is not enough)
+        self.vars = {nm: {'init': init, 'body': body} for nm, (init, body) in loop.carried.items()
+                     if body != ('lphi', self.lid, nm) or nm == self.out_var}
         if self.out_var not in self.vars:
             raise AnalysisError(self.rule, 'accumulator not loop-carried')
         # classify
